@@ -326,7 +326,17 @@ func (sp *specParser) primary() *SExpr {
 				sp.fail("expected bound variable")
 			}
 			if !sp.isKw("in") {
-				sp.fail("expected 'in'")
+				// typed quantifier: forall x T :: body   (T a Go type, tokens up to '::')
+				var typ strings.Builder
+				for !sp.isOp("::") {
+					if sp.peek().k == tEOF {
+						sp.fail("expected '::' in typed quantifier")
+					}
+					typ.WriteString(sp.next().s)
+				}
+				sp.expect("::")
+				body := sp.expr()
+				return &SExpr{Op: t.s + "T", S: v.s, Args: []*SExpr{{Op: "str", S: typ.String()}, body}}
 			}
 			sp.next()
 			lo := sp.add()
